@@ -283,6 +283,9 @@ def run(rep):
     include(rep, 'c04', ('C04.R7', 'C04.R3', 'C04.groups-ordered-map'), 'layout-order')
     # "each resource the entry point uses exists at its @group/@binding": the collected group map holds every variable under its own group and index
     include(rep, 'c11', ('C11.R2',), 'exists-at-group-binding')
+    # the section reaches the assembled output unconditionally (shared rule, lib/sections.py)
+    from sections import check_wiring
+    check_wiring(rep, 'C02.section-wiring', ['pub mod bind_groups', 'get_bind_group_layout ( device )'], 'bind-groups-section')
 
 
 def fmt_exp(e):
